@@ -389,3 +389,106 @@ pub fn ppforeign_op(a: &[&str]) -> Option<String> {
         }
     }
 }
+
+/// An anonymous, lazily zeroed mapping of `len` bytes (reads hit the shared zero page, so even
+/// several GiB cost no memory until written).
+struct Giant {
+    ptr: *mut u8,
+    len: usize,
+}
+
+impl Giant {
+    fn new(len: usize) -> Option<Giant> {
+        let p = unsafe {
+            libc::mmap(core::ptr::null_mut(), len, libc::PROT_READ | libc::PROT_WRITE,
+                       libc::MAP_PRIVATE | libc::MAP_ANONYMOUS | libc::MAP_NORESERVE, -1, 0)
+        };
+        if p == libc::MAP_FAILED {
+            return None;
+        }
+        Some(Giant { ptr: p as *mut u8, len })
+    }
+    fn slice(&self) -> &[u8] {
+        unsafe { core::slice::from_raw_parts(self.ptr, self.len) }
+    }
+    fn put(&mut self, at: usize, bytes: &[u8]) {
+        unsafe { core::ptr::copy_nonoverlapping(bytes.as_ptr(), self.ptr.add(at), bytes.len()) }
+    }
+}
+
+impl Drop for Giant {
+    fn drop(&mut self) {
+        unsafe {
+            libc::munmap(self.ptr as *mut libc::c_void, self.len);
+        }
+    }
+}
+
+/// `giant count <len> <k>` / `giant find <len> <pos>` / `giant rfind <len> <pos>` /
+/// `giant memmem <len> <needle> <pos> <decoy-pos,...>`: inputs beyond 2^32 bytes (zero filled,
+/// lazily mapped).
+///  * count: `memchr_iter(0, hay).count()` where `k` bytes (evenly spread) were set to 1:
+///    must be `len - k`;
+///  * find / rfind: the only non-zero byte (value 0x61) is at `pos`: `memchr` / `memrchr(0x61)`;
+///  * memmem: `Finder::new(needle).find(hay)` with the needle written at `pos` and its first
+///    half (a false candidate) written at each decoy position.
+/// The oracle is known by construction.
+pub fn giant_op(a: &[&str]) -> Option<String> {
+    if a.len() < 3 {
+        return None;
+    }
+    let len: usize = a[1].parse().ok()?;
+    let mut g = match Giant::new(len) {
+        Some(g) => g,
+        // an address-space limit of the environment is not a finding
+        None => return Some("ok skipped steps=0 loads=- oracle=skipped".to_string()),
+    };
+    crate::vreset();
+    verif::set_trace(false);
+    match a[0] {
+        "count" => {
+            let k: usize = a[2].parse().ok()?;
+            for j in 0..k {
+                let at = (len / (k + 1)) * (j + 1);
+                g.put(at, &[1]);
+            }
+            let (r, allocs) = alloc_probe::measure(|| memchr::memchr_iter(0, g.slice()).count());
+            Some(tail(r.to_string(), (len - k).to_string(), allocs))
+        }
+        "find" | "rfind" => {
+            let pos: usize = a[2].parse().ok()?;
+            if pos >= len {
+                return None;
+            }
+            g.put(pos, &[0x61]);
+            let (r, allocs) = alloc_probe::measure(|| {
+                if a[0] == "find" { memchr::memchr(0x61, g.slice()) } else { memchr::memrchr(0x61, g.slice()) }
+            });
+            Some(tail(fmt_opt(r), pos.to_string(), allocs))
+        }
+        "memmem" => {
+            if a.len() != 5 {
+                return None;
+            }
+            let needle = parse_bytes(a[2])?;
+            let pos: usize = a[3].parse().ok()?;
+            if needle.is_empty() || needle.contains(&0) || pos + needle.len() > len {
+                return None;
+            }
+            for d in a[4].split(',') {
+                if d == "-" {
+                    continue;
+                }
+                let at: usize = d.parse().ok()?;
+                if at + needle.len() < pos {
+                    g.put(at, &needle[..needle.len() / 2]);
+                }
+            }
+            g.put(pos, &needle);
+            let f = memchr::memmem::Finder::new(&needle);
+            let (r, allocs) = alloc_probe::measure(|| f.find(g.slice()));
+            Some(tail(fmt_opt(r), pos.to_string(), allocs))
+        }
+        _ => None,
+    }
+}
